@@ -181,6 +181,7 @@ func TestSim(t *testing.T) {
 	processTables = snapTables()
 	_ = setLocal("UTC")
 	verifyield.Hook = yieldHook
+	verifyield.LockHook = lockHook
 
 	if *fMinimise != "" {
 		runMinimise(t)
